@@ -1012,6 +1012,36 @@ def run_drivers(rep, prog):
                        what='absorbing term only at the all-%s corner with the reference expression' % ('zero' if first else 'one'))
 
 
+# single-precision code that is single precision on purpose: one named symbol, one reason
+_SINGLE_PRECISION_BY_DESIGN = {'tridiag_fl': 'the float sibling of tridiag exported as a separate API (tridiag_cython.tridiag_fl); no kernel calls it (checked: call sites below)'}
+
+
+def rule_c_precision(rep, cprog):
+    """R-CTYPE: every floating-point parameter, local and return value of the kernels, coefficient functions and the solver they call
+    is double, and no floating-point value is stored into an int variable (a `float` temporary or an int truncation changes the
+    result of the documented scheme at the 1e-7 level without any test noticing)"""
+    from sa.cfront import c_narrow_storage
+    callers = []
+    for name, cf in sorted(cprog.funcs.items()):
+        if name in _SINGLE_PRECISION_BY_DESIGN:
+            continue
+        for st in cf.walk():
+            for h, a in __import__('sa.cfront', fromlist=['_expr_fields'])._expr_fields(st):
+                e = getattr(h, a)
+                if isinstance(e, ast.AST):
+                    for n in ast.walk(e):
+                        if isinstance(n, ast.Call) and isinstance(n.func, ast.Name) and n.func.id in _SINGLE_PRECISION_BY_DESIGN:
+                            callers.append((name, st.line, n.func.id))
+    for name, cf in sorted(cprog.funcs.items()):
+        if name in _SINGLE_PRECISION_BY_DESIGN:
+            continue
+        bad = c_narrow_storage(cf)
+        rep.ob('R-CTYPE', 'C %s precision' % name, not bad, 'all floating-point storage is double; nothing floating is stored into an int' if not bad else
+               '; '.join('line %d: %s' % b for b in bad[:3]), cf.rel, cf.line, what='the scheme is evaluated in double precision throughout')
+    rep.ob('R-CTYPE', 'single-precision solver call sites', not callers, 'no kernel calls %s' % ', '.join(sorted(_SINGLE_PRECISION_BY_DESIGN)) if not callers else
+           '; '.join('%s line %d calls %s' % c for c in callers[:3]), 'dadi/tridiag.c', 1, what='the single-precision solver is never used by the integration kernels')
+
+
 def rule_c_intdiv(rep, cprog):
     """R-CTYPE: a quotient of two integer-typed operands is truncated by C (1/2 == 0); the formulas of the scheme mean real quotients"""
     from sa.cfront import c_integer_division
@@ -1055,6 +1085,7 @@ def run(rep, prog, tier):
                '; '.join('line %d: %s converts its floating-point argument to int (use fabs)' % b for b in bad), cf.rel, cf.line,
                what='absolute values of floating-point quantities are taken in floating point')
     rule_c_intdiv(rep, cprog)
+    rule_c_precision(rep, cprog)
     rep.floor('R-TPL(kernel)', 330)
     rep.floor('R-TPL(precalc)', 35)
     rep.floor('R-TPL(pyx)', 100)
